@@ -65,6 +65,38 @@ def all_entry_script(pkt, rnd):
     return script(pkt, ops)
 
 
+def edge_scripts(pkt):
+    """deterministic sweeps of the arguments a random script only meets by luck: every text form for set_name with and
+    without a default zone, every capacity around the packet length for raw_packet, record texts longer than 8192
+    characters (still legal records), every string for raw_name_from_str, renames in both modes"""
+    plen = len(pkt)
+    out = []
+    ops = []
+    for st in STRS + ["www.example.com.", "x."]:
+        for z in ("-", hx(ZONE)):
+            ops.append(iter_op("AN", [("0", "set_name %s %s" % (tx(st), z)), ("0", "obs")]))
+    out.append(script(pkt, ops))
+    ops = ["OP raw_packet %d" % c for c in (0, 1, 11, 12, max(plen - 1, 0), plen, plen + 1, 512, 8191, 8192)]
+    ops += ["OP namefromstr " + tx(st) for st in STRS + ["www.example.com.", ".".join(["w" * 62] * 4), ".".join(["w" * 62] * 4) + "."]]
+    out.append(script(pkt, ops))
+    long_txt = 'big. 1 IN TXT "' + "\\065" * 2100 + '"'                 # 8400 characters of text for 2100 bytes of data
+    long_ds = "ds.ex. 60 IN DS 1 8 2 " + "ab" * 4300                        # 8600 hex digits
+    plain_txt = 'p. 1 IN TXT "' + "t" * 3000 + '"'
+    ops = []
+    for sec in ("AN", "NS", "AR"):
+        for t in (long_txt, long_ds, plain_txt):
+            ops += ["OP add %s %s" % (sec, tx(t)), "OP raw_packet 8192"]
+    out.append(script(pkt, ops[:8]))
+    out.append(script(pkt, ops[8:]))
+    ops = []
+    for sfx in (0, 1):
+        for t in histgen.RENAME_NAMES[:4]:
+            ops.append("OP rename %s %s %d" % (hx(t), hx(histgen.name("ex")), sfx))
+            ops.append("OP question")
+    out.append(script(pkt, ops))
+    return out
+
+
 def random_script(pkt, rnd, n):
     ops = []
     plen = len(pkt)
@@ -117,6 +149,8 @@ def scripts(seed, tier):
     for b in bases:
         out.append(all_entry_script(b, rnd))
     out.append(set_ip_script(bases[1]))
+    for b in bases[:3]:
+        out += edge_scripts(b)
     n = 250 if tier == "quick" else 30000
     for _ in range(n):
         out.append(random_script(rnd.choice(bases), rnd, rnd.randint(2, 10)))
